@@ -130,7 +130,10 @@ def uses_media_file(func):
             if not stream:
                 # print(f'Stream {sdir} not found')
                 return flask.make_response(f'Stream {sdir} not found', 404)
-            mf = MediaFile.get(stream_pk=stream.pk, name=filename.lower())
+            # media file names keep the case they were uploaded with
+            mf = MediaFile.get(stream_pk=stream.pk, name=filename)
+            if not mf:
+                mf = MediaFile.get(stream_pk=stream.pk, name=filename.lower())
             if not mf:
                 mf = MediaFile.get(stream_pk=stream.pk, name=f'{filename.lower()}.mp4')
             if not mf:
